@@ -10,7 +10,7 @@
    code by concrete replays (KNOWN_FINDINGS.json, causes R1-R5); they are decided
    by the implementation-side monitor, not claimed here. *)
 From Coq Require Import ZArith NArith Bool List.
-From Mysync Require Import Gtid.Interval Gtid.GtidSet Base.Prog Base.ProgFacts Base.Config Procs.NodeOps Procs.ActiveNodes Proofs.ActiveNodesProofs.
+From Mysync Require Import Gtid.Interval Gtid.GtidSet Base.Prog Base.ProgFacts Base.Config Procs.NodeOps Procs.ActiveNodes Proofs.ActiveNodesProofs Env.World Proofs.SemiSyncWorld.
 Import ListNotations.
 Open Scope Z_scope.
 
@@ -50,3 +50,23 @@ Theorem C04_recovery_removes_from_list_first : forall h tr o, runs (set_recovery
   trace_ok bool (sr_step h) (sr_ok h) false tr.
 Proof. intros h tr o. apply safe_sound. apply set_recovery_order. Qed.
 Print Assumptions C04_recovery_removes_from_list_first.
+
+(* what joining and leaving DO to a replica, executed against the fault-free server of the world model (Env/World.v, tied
+   to the fake server by the K4 correspondence): a replica that joins ends with acknowledgement enabled and its receiver
+   running from the same source, and the call reports success; a replica that leaves ends with acknowledgement off.
+   (Clauses (a),(b) about the whole cluster after an update remain decided on the implementation.) *)
+Theorem C04_joining_replica_acknowledges : forall h ss ms mg rs c w,
+  w_host w = h -> ns_master_gtid ms = Some mg -> ns_slave ss = Some rs -> s_chan (w_srv w) = Some c ->
+  wout (wrun (enable_semi_sync_on_slave h (Some ss) ms) w) = Done None /\
+  s_semi_s (w_srv (wworld (wrun (enable_semi_sync_on_slave h (Some ss) ms) w))) = true /\
+  s_semi_m (w_srv (wworld (wrun (enable_semi_sync_on_slave h (Some ss) ms) w))) = false /\
+  (exists c', s_chan (w_srv (wworld (wrun (enable_semi_sync_on_slave h (Some ss) ms) w))) = Some c' /\ c_io c' = true /\ c_source c' = c_source c).
+Proof. exact join_makes_acknowledging. Qed.
+Print Assumptions C04_joining_replica_acknowledges.
+
+Theorem C04_leaving_replica_stops_acknowledging : forall h restart c w,
+  w_host w = h -> s_chan (w_srv w) = Some c ->
+  wout (wrun (disable_semi_sync_on_slave h restart) w) = Done None /\
+  s_semi_s (w_srv (wworld (wrun (disable_semi_sync_on_slave h restart) w))) = false.
+Proof. exact leave_stops_acknowledging. Qed.
+Print Assumptions C04_leaving_replica_stops_acknowledging.
